@@ -651,6 +651,7 @@ func C02(tier string) int {
 								fmt.Sprintf("after a delivery from %s to [%s], a delivery from %s to [%s %s] reaches %v, expected %v", shortID(s1), shortID(e1), shortID(s2), shortID(e2a), shortID(e2b), shortIDs(got), setKeys(bad)),
 								M{"check": "C02", "part": "history", "first": M{"sender": s1, "to": e1}, "second": M{"sender": s2, "to": L{e2a, e2b}}})
 						}
+						heldPayloads(res, "C02", a, fmt.Sprintf("deliveries from %s then %s", shortID(s1), shortID(s2)))
 					}
 				}
 			}
